@@ -1,6 +1,9 @@
 import OpyVerif.Proofs.C18real
 import OpyVerif.Proofs.Formulas
 import OpyVerif.Generated.FormulasC18
+import OpyVerif.Generated.Select
+import OpyVerif.Proofs.SelectProg
+import OpyVerif.Proofs.C18
 /-!
 C18 stated about the *translated source*: the expressions of `Generated/FormulasDefs.lean` are what
 `harness/translate_formulas.py` read from the current working tree.  Each theorem composes the
@@ -18,5 +21,30 @@ theorem code_levy (env : String → ℝ) :
     Gen.levyExpr.denote env [] =
       .s (env "g1" * levySigma (env "beta") / |env "g2"| ^ (1 / env "beta")) := by
   rw [Gen.levy_eq, d_levy, levyStep_eq]
+
+/-! ## C18 — tournament selection and the Bernoulli thresholding, as translated -/
+
+/-- the translated `tournament_selection` is the model `tournament`, for every fitness list and all draws -/
+theorem code_tournament (fitness : List Int) (rounds : List (List Int)) :
+    Gen.tournProg.run fitness rounds = tournament fitness rounds := by
+  rw [Gen.tournProg_eq]; exact tournProg_is_tournament fitness rounds
+
+/-- C18 (selection clause) about the code as translated on this run: every selected index is valid, holds the minimum of
+    the values drawn in its round, and is the first holder of that value -/
+theorem code_tournament_spec (fit : List Int) (rounds : List (List Int)) (sel : List Nat)
+    (h : Gen.tournProg.run fit rounds = some sel) :
+    ∀ k (hk : k < sel.length) (hk' : k < rounds.length),
+      ∃ h : sel[k] < fit.length,
+        (fit[sel[k]] ∈ rounds[k] ∧ ∀ x ∈ rounds[k], fit[sel[k]] ≤ x) ∧
+        ∀ j (hj : j < fit.length), j < sel[k] → fit[j] ≠ fit[sel[k]] :=
+  tournament_spec fit rounds sel (by rw [← code_tournament]; exact h)
+
+theorem code_tournament_length (fit : List Int) (rounds : List (List Int)) (sel : List Nat)
+    (h : Gen.tournProg.run fit rounds = some sel) : sel.length = rounds.length :=
+  tournament_length fit rounds sel (by rw [← code_tournament]; exact h)
+
+/-- the translated `generate_bernoulli_distribution` is the model `bernoulli` -/
+theorem code_bernoulli (prob : Int) (us : List Int) : Gen.bernProg.run prob us = some (bernoulli prob us) := by
+  rw [Gen.bernProg_eq]; exact bernProg_is_bernoulli prob us
 
 end Opy
